@@ -79,7 +79,16 @@ def shapes():
            ("Equals", ("Select", ("Store", ("Store", ("Array", ("type", INT), L(7, INT)), L(1, INT), x), L(2, INT), y), L(3, INT)), z),
            ("Equals", ("Select", ("Store", ("Array", ("type", INT), L(0, INT)), x, y), x), y),
            ("Equals", ("Select", ("Store", ("Store", ("Array", ("type", INT), L(0, INT)), x, y), x, z), x), z),
-           ("Equals", ("Select", ("Array", ("type", INT), L(5, INT)), x), y)]
+           ("Equals", ("Select", ("Array", ("type", INT), L(5, INT)), x), y),
+           # array values whose default / stored values are terms over the model's symbols
+           ("Equals", ("Select", ("Array", ("type", INT), x, ("dict", (L(1, INT), y), (L(2, INT), ("Plus", z, L(3, INT))))), L(2, INT)), ("Plus", z, L(3, INT))),
+           ("Equals", ("Select", ("Array", ("type", INT), x, ("dict", (L(1, INT), y))), L(1, INT)), y),
+           ("LT", ("Select", ("Array", ("type", INT), x), L(4, INT)), ("Plus", x, L(1, INT))),
+           ("Or", a, ("Equals", ("Select", ("Array", ("type", INT), L(0, INT), ("dict", (L(1, INT), y))), L(1, INT)), y)),
+           # ... symbols that occur nowhere else
+           ("Equals", ("Select", ("Array", ("type", INT), L(7, INT), ("dict", (L(1, INT), y), (L(2, INT), ("Plus", z, L(3, INT))))), x), L(2, INT)),
+           ("LT", ("Select", ("Array", ("type", INT), y), L(4, INT)), L(1, INT)),
+           ("Equals", ("Select", ("Store", ("Array", ("type", INT), L(0, INT), ("dict", (L(1, INT), y))), L(2, INT), z), L(1, INT)), L(0, INT))]
     return [Shape(t) for t in sh]
 
 
@@ -137,6 +146,15 @@ def _model_job(job):
         # assignments of the symbolic constants; the symbols take the constants' values
         nodes = [f] + list(asg.values()) + [v[1] for k, v in out.items() if isinstance(k, tuple) and v[0] == "ret" and w.is_node(v[1])]
         uses_arrays = "Store" in repr(shape_t) or "Select" in repr(shape_t)
+        lits = set()
+
+        def _lits(t_):
+            if isinstance(t_, tuple):
+                if t_ and t_[0] == "lit" and isinstance(t_[1], int) and not isinstance(t_[1], bool):
+                    lits.add(t_[1])
+                for x_ in t_[1:]:
+                    _lits(x_)
+        _lits(shape_t)
         for a in sc.assignments(w, nodes, facts):
             if not sc.facts_hold(facts, a):
                 continue
@@ -147,6 +165,8 @@ def _model_job(job):
                 cvals = [(k_, v_) for k_, v_ in a.items() if not k_.startswith("sym:") and not k_.startswith("fun:")]
                 if len(set(map(repr, [v_ for _k, v_ in cvals]))) != len(cvals):
                     continue
+                if any(v_ in lits for _k, v_ in cvals):
+                    continue            # ... nor the value of a literal of the skeleton (another node again)
             env = dict(a)
             try:
                 for sy in syms:
